@@ -1,3 +1,14 @@
+//! vh-poa: C15 (consensus acceptance rules, exhaustive mutation enumeration)
+//! and C24 (PoA block production task, explicit-state exploration of the real
+//! `fuel_core_poa::new_service` under a scripted environment).
+mod c15;
+mod c24;
+
 fn main() {
-    mcx::machinery_failure("not built yet");
+    let cli = mcx::Cli::parse();
+    match cli.property.as_str() {
+        "C15" => c15::run(&cli),
+        "C24" => c24::run(&cli),
+        other => mcx::machinery_failure(&format!("vh-poa does not serve {other}")),
+    }
 }
